@@ -58,6 +58,31 @@ def const_bytes(k):
     return None
 
 
+def promoted_bytes(body, k):
+    """Bytes of a promoted constant `&[u8; N]` in a generic function (not evaluable by rustc without
+    substitutions): read off the promoted MIR body `_1 = [consts..]; _0 = &_1`."""
+    import re
+    m = re.search(r"promoted\[(\d+)\]$", k.get("s", "") or "")
+    if not m:
+        return None
+    idx = int(m.group(1))
+    proms = body.j.get("promoted") or []
+    if idx >= len(proms):
+        return None
+    out = None
+    for bl in proms[idx]["blocks"]:
+        for s in bl["s"]:
+            if s["k"] == "assign" and s["r"]["k"] == "agg" and s["r"].get("ak") == "array":
+                vals = [const_int(op_const(o)) for o in s["r"]["ops"]]
+                if all(v is not None and 0 <= v < 256 for v in vals):
+                    out = bytes(vals)
+            elif s["k"] == "assign" and s["r"]["k"] == "use":
+                b = const_bytes(op_const(s["r"]["op"]))
+                if b is not None:
+                    out = b
+    return out
+
+
 def is_local(place, l=None):
     return place is not None and not place["p"] and (l is None or place["l"] == l)
 
